@@ -70,7 +70,12 @@ def record_sites(program: list[dict[str, Any]], env: Env | None = None, out: dic
         elif step["op"] == "log":
             out[("log", step["id"])] = env.scope  # type: ignore[index]
         elif step["op"] == "block":
-            record_sites(step["body"], env.push(step), out)
+            inner = env.push(step)
+            for d in step.get("disposables") or []:
+                if d.get("exit_log"):
+                    # a resource that logs while it is being released: the scope that owns it is still open then, the line is the scope's
+                    out[("log", d["exit_log"]["id"])] = inner.scope  # type: ignore[index]
+            record_sites(step["body"], inner, out)
         elif step["op"] == "spawn":
             record_sites(step["body"], env, out)
     return out
@@ -320,6 +325,28 @@ class Disposable:
             except (ValueError, RuntimeError):
                 pass  # entered in another context copy than the one it is left in: tolerated by this resource
             self._held = None
+        if self.spec.get("exit_log"):
+            await run_steps(W, [self.spec["exit_log"]], None)
+        if self.spec.get("exit_block"):
+            # a resource releasing itself under a state update / scope of its own (properly nested inside __aexit__): resources of one
+            # scope are released concurrently - also when a failed or cancelled entering is rolled back - and must not see each other's blocks
+            from haiway import ctx
+
+            def view() -> Any:
+                return (_outcome(lambda: ctx.state(family.R1)), _outcome(lambda: ctx.state(family.D2)))
+
+            rec: dict[str, Any] = {"owner": self.owner, "idx": self.idx, "own": 700 + self.idx, "phase": "exit", "before": view(), "inside": []}
+            with ctx.updated(family.make("R1", 700 + self.idx), family.make("D2", 700 + self.idx)):
+                rec["inside"].append(view())
+                await asyncio.sleep(0)
+                rec["inside"].append(view())
+                with ctx.scope(f"{self.owner}.d{self.idx}.release", family.make("R1", 750 + self.idx)):
+                    await asyncio.sleep(0)
+                rec["inside"].append(view())
+            rec["after"] = view()
+            await asyncio.sleep(0)
+            rec["later"] = view()
+            W.disposable_views.append(rec)
         how = self.spec.get("exit", "ok")
         if how.startswith("gate"):
             await W.sched.gate(f"{self.owner}.d{self.idx}.exit")
@@ -735,6 +762,16 @@ async def run_steps(W: World, steps: list[dict[str, Any]], rng: random.Random | 
                 await run_block(W, step, rng)
         elif op == "raise":
             raise make_exc(step["exc"], step.get("tag", "step"))
+        elif op == "stale":
+            # this task absorbs a cancellation request (its own, or one its owner made through the task handle): from now on its
+            # count of requests stays above zero although it is alive and nobody wants it gone
+            me0 = asyncio.current_task()
+            assert me0 is not None
+            me0.cancel()
+            try:
+                await asyncio.sleep(0)
+            except asyncio.CancelledError:
+                W.event("absorbed-own-cancel", step.get("tag"))
         elif op == "fail":
             W.event("child-fails", step.get("tag"))
             raise ChildErr(step.get("tag", "child"))
@@ -855,7 +892,10 @@ async def run_block(W: World, block: dict[str, Any], rng: random.Random | None) 
             try:
                 await run_steps(W, block["body"], rng)
             except asyncio.CancelledError:
-                if block["convert_cancel"] == "absorb":
+                if block["convert_cancel"] == "swallow":
+                    # user code that catches the cancellation and simply carries on (no uncancel): the body ends where it was cancelled
+                    W.event("body-swallows-cancel", name)
+                elif block["convert_cancel"] == "absorb":
                     # user code that suppresses the cancellation its scope's group caused (a spawned task failed) and says so the way
                     # asyncio asks for: Task.uncancel(); the body then ends the way the program says
                     W.event("body-absorbs-cancel", name)
